@@ -213,6 +213,8 @@ func c04NumLeaves() []*lib.Node {
 		lib.Call("int", lib.Value()), lib.Call("float", lib.Value()), lib.Call("strlen", lib.Key()),
 		// constant calls that fold: a whole float must stay a float
 		lib.Call("float", lib.Int(3)), lib.Call("float", lib.Str("2")), lib.Call("int", lib.Str("7")),
+		// floats that are not exactly representable: (x + 0.1) + 0.2 is not x + (0.1 + 0.2)
+		lib.Float("0.1"), lib.Float("0.2"),
 	}
 }
 
